@@ -2,7 +2,7 @@
 Contracts for C09 -- code-base membership (codebasin/__init__.py: CodeBase,
 codebasin/source.py).  Also used by C10 (exclusion) and C15 (links).
 
-Member(p) <=> with r = resolve(p): r exists, is not a directory, has a
+Member(p) <=> p names an existing file and, with r = resolve(p): r is not a directory, has a
 recognised source suffix, lies below some code-base directory, and is not
 matched by the exclude patterns relative to the FIRST such directory.
 The git conformance of the matcher itself (pathspec) is an assumed dependency
@@ -40,7 +40,8 @@ def member(dirs, patterns, p):
     ok_ext, _ = ext_ok(_INDEX["index"], r)
     first = z3.And(0 <= i_, i_ < dirs.n, F.below(r, dirs.arr[i_]),
                    z3.ForAll([j_], z3.Implies(z3.And(0 <= j_, j_ < i_), z3.Not(F.below(r, dirs.arr[j_])))))
-    return z3.And(F.exists(r), z3.Not(F.is_dir(r)), ok_ext,
+    # existence is a fact about the path AS SPELLED (`nosuch/../f.c` names nothing although its lexical resolution does)
+    return z3.And(F.exists(p), z3.Not(F.is_dir(r)), ok_ext,
                   z3.Exists([i_], z3.And(first, z3.Not(F.ignored(patterns, F.relto(r, dirs.arr[i_]))))))
 
 
